@@ -229,7 +229,7 @@ def check(rec, kind, idx, rng, tier):
     if kind == 'enc':
         a, exps, nan = _enc_raster(rng)
         k = gen.kernel01(rng)
-        if idx == 0:
+        if len(rec.samples) < 1:
             rec.sample(dict(raster=a, kernel=k, note='reducer=nansum returns the bitmask of received cells'))
         _probe(rec, a, exps, nan, k, rng, dict(kind='random'))
         return
